@@ -800,7 +800,13 @@ fn tungstenite_over(pipe: &crate::bytepipe::BytePipe, side: usize) -> tokio_tung
     // tungstenite's defaults except the size of the read buffer: the default (128 KiB) is allocated per endpoint and
     // zero-filled on EVERY read of the byte stream (~2 ms per execution, 20x the rest); 4 KiB holds every frame of
     // the scenarios many times over and changes nothing but the chunking of reads
-    let wscfg = WebSocketConfig::default().read_buffer_size(4096);
+    let mut wscfg = WebSocketConfig::default().read_buffer_size(4096);
+    let limit = WS_WRITE_LIMIT.with(std::cell::Cell::get);
+    if limit > 0 {
+        // an application may bound what the WebSocket buffers for writing (tungstenite: a message that does not fit is
+        // handed back with `WriteBufferFull`)
+        wscfg = wscfg.write_buffer_size(0).max_write_buffer_size(limit);
+    }
     // `from_raw_socket` only wraps the stream: ready at its first poll (the waker it registers is replaced by the
     // connection task's at the first `poll_next`)
     let mut mk = Box::pin(WebSocketStream::from_raw_socket(pipe.endpoint(side), if side == 0 { Role::Client } else { Role::Server }, Some(wscfg)));
@@ -814,6 +820,25 @@ pub fn opts(rwnd: u32, thr: u32) -> Options {
 
 pub fn bytes_of(v: &[u8]) -> Bytes {
     Bytes::copy_from_slice(v)
+}
+
+thread_local! {
+    /// `max_write_buffer_size` for the WebSockets `two_tungstenite` builds (0 = tungstenite's default)
+    pub static WS_WRITE_LIMIT: std::cell::Cell<usize> = const { std::cell::Cell::new(0) };
+}
+
+/// Sets `WS_WRITE_LIMIT` for the current thread until dropped.
+pub struct WsWriteLimit;
+impl WsWriteLimit {
+    pub fn set(v: usize) -> Self {
+        WS_WRITE_LIMIT.with(|c| c.set(v));
+        WsWriteLimit
+    }
+}
+impl Drop for WsWriteLimit {
+    fn drop(&mut self) {
+        WS_WRITE_LIMIT.with(|c| c.set(0));
+    }
 }
 
 // ---------------------------------------------------------------- waits inside a select-like loop
